@@ -85,7 +85,9 @@ func (g *docgen) region() string {
 	var sb strings.Builder
 	sb.WriteString(g.tmpl[0])
 	for k := rapid.IntRange(0, 4).Draw(t, "rn"); k > 0; k-- {
-		sb.WriteString(rapid.SampledFrom([]string{" x ", ".y", " if a ", "'" + g.tmpl[1] + "'", "\"" + g.tmpl[1] + "\"", `"a\"` + g.tmpl[1] + `"`, "'it\\'s'", ">", "<b>", "</script>", " ", "=", "\n"}).Draw(t, "rpart"))
+		sb.WriteString(rapid.SampledFrom([]string{" x ", ".y", " if a ", "'" + g.tmpl[1] + "'", "\"" + g.tmpl[1] + "\"", `"a\"` + g.tmpl[1] + `"`, "'it\\'s'", ">", "<b>", "</script>", " ", "=", "\n",
+			// a region is opaque: closers of the construct it stands in do not end that construct
+			"-->", "]]>", "/>", "</svg>", "</math >", "</textarea>", "--!>", "'-->'", "\"</style>\"", `"\\\\"`, `'\\\\'`, `"a\\\\\"b"`}).Draw(t, "rpart"))
 	}
 	s := sb.String()
 	// the end delimiter must not arise by accident outside quotes (e.g. "}" + "}")
@@ -118,6 +120,21 @@ func (g *docgen) sanitizeText(s string) string {
 	return out
 }
 
+// stripOpeners removes accidental opening delimiters of the template dialect (also one that would arise at the end of s
+// together with what follows)
+func (g *docgen) stripOpeners(s string) string {
+	if g.tmpl[0] == "" {
+		return s
+	}
+	for strings.Contains(s, g.tmpl[0]) {
+		s = strings.ReplaceAll(s, g.tmpl[0], g.tmpl[0][:1]+" "+g.tmpl[0][1:])
+	}
+	if strings.HasSuffix(s, g.tmpl[0][:1]) {
+		s += " "
+	}
+	return s
+}
+
 func (g *docgen) text() {
 	t := g.t
 	if g.last == "text" {
@@ -146,15 +163,33 @@ func (g *docgen) comment() {
 		for strings.HasPrefix(s, ">") || strings.HasPrefix(s, "->") {
 			s = "x" + s
 		}
+		hasTmpl := false
+		if g.tmpl[0] != "" {
+			// a bare opening delimiter would start a region: only whole regions are written (they may hold "-->")
+			s = g.stripOpeners(s)
+			var out strings.Builder
+			for k := rapid.IntRange(0, 2).Draw(t, "cregions"); k > 0; k-- {
+				at := rapid.IntRange(0, len(s)).Draw(t, "cregionat")
+				out.WriteString(g.stripOpeners(s[:at]) + g.region())
+				s = s[at:]
+				hasTmpl = true
+			}
+			s = out.String() + s
+		}
 		close := rapid.SampledFrom([]string{"-->", "-->", "--!>"}).Draw(t, "cclose")
 		if strings.HasSuffix(s, "--!") || strings.HasSuffix(s, "-") && close == "--!>" {
 			s += " "
 		}
 		// "a--" + "-->" would end one character early on "--->": keep the body from ending in "-" before "--!>" only; "--->" is fine
-		g.add(tok{html.CommentToken, "<!--" + s + close, s, noVal, false})
+		g.add(tok{html.CommentToken, "<!--" + s + close, s, noVal, hasTmpl})
 	case 2:
 		s := rapid.SampledFrom([]string{"x", "ELEMENT a", "[if IE]", "-x", "[CDATA", "doctyp"}).Draw(t, "bogus")
-		g.add(tok{html.CommentToken, "<!" + s + ">", s, noVal, false})
+		hasTmpl := false
+		if g.tmpl[0] != "" && rapid.IntRange(0, 2).Draw(t, "bogusregion") == 0 {
+			s += " " + g.region()
+			hasTmpl = true
+		}
+		g.add(tok{html.CommentToken, "<!" + s + ">", s, noVal, hasTmpl})
 	case 3:
 		s := rapid.SampledFrom([]string{"x", "xml version='1.0'?", "php echo 1 ?", ""}).Draw(t, "pi")
 		if g.tmpl[0] == "<?" {
@@ -173,7 +208,12 @@ func (g *docgen) comment() {
 func (g *docgen) doctype() {
 	t := g.t
 	body := rapid.SampledFrom([]string{" html", "html", "", " HTML PUBLIC \"-//W3C//DTD HTML 4.01//EN\"", "  x", " html SYSTEM 'about:legacy-compat'"}).Draw(t, "dbody")
-	g.add(tok{html.DoctypeToken, "<!" + randCase(t, "doctype") + body + ">", body, noVal, false})
+	hasTmpl := false
+	if g.tmpl[0] != "" && rapid.IntRange(0, 2).Draw(t, "doctyperegion") == 0 {
+		body += " " + g.region()
+		hasTmpl = true
+	}
+	g.add(tok{html.DoctypeToken, "<!" + randCase(t, "doctype") + body + ">", body, noVal, hasTmpl})
 	g.classes["doctype"]++
 	g.last = "doctype"
 }
@@ -185,10 +225,16 @@ func (g *docgen) cdata() {
 		sb.WriteString(rapid.SampledFrom([]string{"d", "]", "]]", "]>", ">", "<a>", "</a>", "&", "\n", "é", "-->"}).Draw(t, "dpart"))
 	}
 	s := strings.ReplaceAll(sb.String(), "]]>", "]] >")
+	hasTmpl := false
 	if g.tmpl[0] != "" {
-		s = strings.ReplaceAll(s, g.tmpl[0], "")
+		s = g.stripOpeners(s)
+		if rapid.IntRange(0, 2).Draw(t, "cdataregion") == 0 {
+			at := rapid.IntRange(0, len(s)).Draw(t, "cdataregionat")
+			s = g.stripOpeners(s[:at]) + g.region() + s[at:]
+			hasTmpl = true
+		}
 	}
-	g.add(tok{html.TextToken, "<![CDATA[" + s + "]]>", s, noVal, false})
+	g.add(tok{html.TextToken, "<![CDATA[" + s + "]]>", s, noVal, hasTmpl})
 	g.classes["cdata"]++
 	g.last = "cdata"
 }
@@ -255,6 +301,26 @@ func (g *docgen) attributes(max int) (needWS bool) {
 					v += g.region()
 				}
 				hasTmpl = true
+			} else if useTmpl {
+				// regions in front of, in the middle of and behind unquoted text: still one value
+				for k := rapid.IntRange(2, 4).Draw(t, "umix"); k > 0; k-- {
+					if rapid.Bool().Draw(t, "umixregion") {
+						v += g.region()
+						hasTmpl = true
+					} else {
+						v += g.stripOpeners(rapid.SampledFrom([]string{"x", "/u/", "1", "a=b", "é", "/edit", "it's", "#"}).Draw(t, "umixtext"))
+					}
+				}
+				if strings.HasPrefix(v, "\"") || strings.HasPrefix(v, "'") {
+					v = "x" + v
+				}
+				if !hasTmpl {
+					v += g.region()
+					hasTmpl = true
+				}
+				if strings.HasSuffix(v, "/") {
+					v += "x" // (a region followed by "/>" is the void closer, not part of the value)
+				}
 			} else {
 				var sb strings.Builder
 				for k := rapid.IntRange(1, 3).Draw(t, "un"); k > 0; k-- {
@@ -311,6 +377,14 @@ func (g *docgen) startTag() {
 
 func (g *docgen) endTag(n string) {
 	t := g.t
+	if g.tmpl[0] != "" && rapid.IntRange(0, 5).Draw(t, "endtagregion") == 0 {
+		// a region behind the name (Text() is the name and what follows it, without trailing whitespace)
+		r := g.region()
+		g.add(tok{html.EndTagToken, "</" + lower(n) + " " + r + wsp(t, 0) + ">", lower(n) + " " + r, noVal, true})
+		g.classes["endtag"]++
+		g.last = "tag"
+		return
+	}
 	g.add(tok{html.EndTagToken, "</" + lower(n) + wsp(t, 0) + ">", lower(n), noVal, false})
 	g.classes["endtag"]++
 	g.last = "tag"
@@ -326,7 +400,9 @@ func (g *docgen) rawElement() {
 	var sb strings.Builder
 	hasTmpl := false
 	for k := rapid.IntRange(0, 5).Draw(t, "rawn"); k > 0; k-- {
-		p := rapid.SampledFrom([]string{"x", " ", "\n", "<b>", "</b>", "<", "</", "</" + n + "x", "</ " + n + ">", "< /" + n + ">", "</" + n[:len(n)-1], "</" + n[:len(n)-1] + ">", "</other>", "'", "\"", "&amp;", "é", "var a = '<p>';", "ESC", "ESC", "ESC", "REGION", "REGION", "<!-", "-->", "<script>", "<SCRIPT x>", "--", "-"}).Draw(t, "rawpart")
+		p := rapid.SampledFrom([]string{"x", " ", "\n", "<b>", "</b>", "<", "</", "</" + n + "x", "</ " + n + ">", "< /" + n + ">", "</" + n[:len(n)-1], "</" + n[:len(n)-1] + ">", "</other>", "'", "\"", "&amp;", "é", "var a = '<p>';", "ESC", "ESC", "ESC", "REGION", "REGION", "<!-", "-->", "<script>", "<SCRIPT x>", "--", "-",
+			// not the matching end tag: the name goes on (only whitespace, / and > end a tag name)
+			"</" + n + "-x>", "</" + n + "0>", "</" + randCase(t, n) + ":y>", "</" + n + "_>", "</" + n + "=>"}).Draw(t, "rawpart")
 		switch p {
 		case "ESC":
 			if n != "script" {
@@ -337,10 +413,19 @@ func (g *docgen) rawElement() {
 			sb.WriteString("\x02") // placeholder for "<!--", restored after stray openers have been defused
 			in := false
 			for j := rapid.IntRange(0, 4).Draw(t, "escn"); j > 0; j-- {
-				q := rapid.SampledFrom([]string{" x ", "<" + randCase(t, "script") + ">", "<script ", "</" + randCase(t, "script") + ">", "<b>", "</scriptx>", "\n", "- ", "-- ", "--x>", "-x->"}).Draw(t, "escpart")
-				if strings.HasPrefix(lower(q), "<script") {
+				q := rapid.SampledFrom([]string{" x ", "<" + randCase(t, "script") + ">", "<script ", "</" + randCase(t, "script") + ">", "<b>", "</scriptx>", "\n", "- ", "-- ", "--x>", "-x->", "<script-x>", "<script0 ", "</script-x>", "<script/>", "</script/>", "REGION"}).Draw(t, "escpart")
+				if q == "REGION" {
+					if g.tmpl[0] != "" {
+						sb.WriteString(g.region())
+						hasTmpl = true
+					}
+					continue
+				}
+				if strings.HasPrefix(lower(q), "<script-") || strings.HasPrefix(lower(q), "<script0") || strings.HasPrefix(lower(q), "</script-") {
+					// not script tags: they change nothing
+				} else if strings.HasPrefix(lower(q), "<script") {
 					in = true
-				} else if strings.HasPrefix(lower(q), "</script>") {
+				} else if strings.HasPrefix(lower(q), "</script>") || strings.HasPrefix(lower(q), "</script/") {
 					if !in {
 						continue
 					}
@@ -378,34 +463,101 @@ func (g *docgen) rawElement() {
 	g.last = "tag"
 }
 
+// foreignAttrs: attributes of an element inside (or at the root of) foreign content; the last return value tells whether
+// the tag may be closed by "/>" as a self-closing tag (not behind an unquoted value: there the slash belongs to the value)
+func (g *docgen) foreignAttrs(n string, hasTmpl *bool) (string, bool) {
+	t := g.t
+	var sb strings.Builder
+	canVoid := true
+	for k := rapid.IntRange(0, 2).Draw(t, "fattr"); k > 0; k-- {
+		a := rapid.SampledFrom([]string{` width="1"`, ` a="</` + n + `>"`, ` b='x'`, ` viewBox="0 0 1 1"`, ` c`, ` d="</SVG>"`, ` e='</` + n + `>'`, ` f='"'`, ` g="it's"`, ` h = ">"`, ` i='/>'`, ` j="/>"`, ` k=v`, ` l=v/`, ` m=a"b`, "\nn\t=\n'>'", "REGIONQ", "REGIONU"}).Draw(t, "fa")
+		switch a {
+		case "REGIONQ":
+			if g.tmpl[0] == "" {
+				continue
+			}
+			a = ` r="x` + g.region() + `"`
+			*hasTmpl = true
+		case "REGIONU":
+			if g.tmpl[0] == "" {
+				continue
+			}
+			a = ` u=` + g.region()
+			*hasTmpl = true
+		}
+		sb.WriteString(a)
+		canVoid = !(strings.HasSuffix(a, "=v") || strings.HasSuffix(a, "=v/") || strings.HasSuffix(a, `a"b`) || strings.HasPrefix(a, " u="))
+	}
+	return sb.String(), canVoid
+}
+
+// foreignContent: the content of an svg or math element: text with quotes, other elements, comments and CDATA sections
+// holding look-alike end tags, the other foreign kind, nested elements of the same kind (closed or self-closing) and, in
+// template mode, regions
+func (g *docgen) foreignContent(n, other string, depth int, hasTmpl *bool) string {
+	t := g.t
+	var sb strings.Builder
+	for k := rapid.IntRange(0, 4).Draw(t, "fn"); k > 0; k-- {
+		p := rapid.SampledFrom([]string{"<path d=\"M0 0\"/>", "<g>", "</g>", "text", "<title>t</title>", "<a x=\"</" + n + ">\"/>", "</" + n + "x>", "<!-- c -->", "\n", "<mi>x</mi>", "</other>",
+			"<" + other + ">", "</" + other + ">", "</" + strings.ToUpper(other) + " >", "<foreignObject><" + other + "></" + other + "></foreignObject>", "</xml>",
+			// quotes in text content are text; quotes of either kind delimit attribute values inside tags only
+			"5\" pipe", "it's", "\"", "'", "<text>say \"hi</text>", "<a x='</" + n + ">' y=\"'\"/>", "<b q='\"'>", "<c\nq = \">\" r='>'>",
+			"<!-- </" + n + "> \" ' -->", "<![CDATA[ </" + n + "> \" ' < ]]>", "<!---->", "<" + n + "x>", "<" + n + "s a='b'>", "<g a=b/>", "<g a=/>",
+			"NESTED", "NESTED", "SELFCLOSED", "REGION"}).Draw(t, "fpart")
+		switch p {
+		case "NESTED":
+			if depth >= 2 {
+				continue
+			}
+			attrs, _ := g.foreignAttrs(n, hasTmpl)
+			sb.WriteString("<" + randCase(t, n) + attrs + wsp(t, 0) + ">" + g.foreignContent(n, other, depth+1, hasTmpl) + "</" + randCase(t, n) + wsp(t, 0) + ">")
+			g.classes["foreign-nested"]++
+		case "SELFCLOSED":
+			attrs, canVoid := g.foreignAttrs(n, hasTmpl)
+			if !canVoid {
+				attrs += " "
+			}
+			sb.WriteString("<" + randCase(t, n) + attrs + "/>")
+			g.classes["foreign-selfclosed-inner"]++
+		case "REGION":
+			if g.tmpl[0] != "" {
+				sb.WriteString(g.region())
+				*hasTmpl = true
+			}
+		default:
+			sb.WriteString(p)
+		}
+	}
+	return sb.String()
+}
+
 func (g *docgen) foreign() {
 	t := g.t
 	n := rapid.SampledFrom([]string{"svg", "math"}).Draw(t, "foreign")
-	var sb strings.Builder
-	sb.WriteString("<" + n)
-	for k := rapid.IntRange(0, 2).Draw(t, "fattr"); k > 0; k-- {
-		sb.WriteString(rapid.SampledFrom([]string{` width="1"`, ` a="</` + n + `>"`, ` b='x'`, ` viewBox="0 0 1 1"`, ` c`, ` d="</SVG>"`}).Draw(t, "fa"))
-	}
-	sb.WriteString(">")
 	other := "math"
 	if n == "math" {
 		other = "svg"
 	}
-	for k := rapid.IntRange(0, 4).Draw(t, "fn"); k > 0; k-- {
-		// the subtree ends at the end tag of ITS kind only: the other foreign kind may be nested inside (annotation-xml, foreignObject)
-		sb.WriteString(rapid.SampledFrom([]string{"<path d=\"M0 0\"/>", "<g>", "</g>", "text", "<title>t</title>", "<a x=\"</" + n + ">\"/>", "</" + n + "x>", "<!-- c -->", "\n", "<mi>x</mi>", "</other>",
-			"<" + other + ">", "</" + other + ">", "</" + strings.ToUpper(other) + " >", "<foreignObject><" + other + "></" + other + "></foreignObject>", "</xml>"}).Draw(t, "fpart"))
+	hasTmpl := false
+	attrs, canVoid := g.foreignAttrs(n, &hasTmpl)
+	var src string
+	if rapid.IntRange(0, 5).Draw(t, "selfclosedroot") == 0 {
+		if !canVoid {
+			attrs += " "
+		}
+		src = "<" + n + attrs + "/>"
+		g.classes["foreign-selfclosed"]++
+	} else {
+		src = "<" + n + attrs + wsp(t, 0) + ">" + g.foreignContent(n, other, 0, &hasTmpl) + "</" + randCase(t, n) + wsp(t, 0) + ">"
 	}
-	sb.WriteString("</" + randCase(t, n) + wsp(t, 0) + ">")
-	src := sb.String()
 	tt := html.SVGToken
 	if n == "math" {
 		tt = html.MathToken
 	}
-	if g.tmpl[0] != "" {
+	if g.tmpl[0] != "" && !hasTmpl {
 		src = strings.ReplaceAll(src, g.tmpl[0], "")
 	}
-	g.add(tok{tt, src, n, noVal, false})
+	g.add(tok{tt, src, n, noVal, hasTmpl})
 	g.classes["foreign"]++
 	g.last = "tag"
 }
@@ -486,6 +638,9 @@ func (g *docgen) upcase() string {
 		case html.EndTagToken:
 			// only the name is case-folded
 			nameEnd := 2 + len(k.text)
+			if j := strings.IndexByte(k.text, ' '); j >= 0 {
+				nameEnd = 2 + j // a template region follows the name
+			}
 			d = "</" + randCase(t, d[2:nameEnd]) + d[nameEnd:]
 		case html.AttributeToken:
 			if !(k.tmpl && strings.Contains(k.text, g.tmpl[0]) && g.tmpl[0] != "") {
